@@ -272,6 +272,12 @@ class TNCtor(TNCore):
         if tol * L >= 1:
             tol = tol / (2 * L)
         v = src.dense.copy()
+        if op.get('admix'):
+            # a low-entanglement vector plus a tiny generic admixture: Schmidt spectra spanning many orders of magnitude
+            g = np.random.Generator(np.random.PCG64(op.get('sub', 1)))
+            r_ = g.normal(size=v.shape) + 1j * g.normal(size=v.shape)
+            v = v / np.linalg.norm(v) + 2.0 ** -int(op['admix']) * r_ / np.linalg.norm(r_)
+            self.probe('from_vector_tiny_admixture')
         if op.get('env', {}).get('layout') == 'ro':
             v.flags.writeable = False
         vb = v.tobytes()
